@@ -14,6 +14,7 @@ import (
 	"github.com/facebookincubator/dns/dnsrocks/db"
 
 	"dsim/core"
+	"dsim/gen"
 )
 
 // ---- C05: a reload switches generations atomically and visibly -------------------------------
@@ -145,11 +146,13 @@ func judgeGenerations(sc *SrvScenario, h *SrvHistory, res *core.Result, staleKin
 				continue
 			}
 			if !o.OK {
-				// which in-place catch-up exposed the generation? the first one executed after it was
+				// which in-place catch-up exposed the generation? the first one that ended after it was
 				// published; it belongs to this reload or to an earlier one that had timed out
 				exposed := "none"
 				for _, cu := range h.Mon.CatchUps {
-					if cu.Start > o.Pub {
+					// a catch-up that was still running (or started) after the publication: the call
+					// into RocksDB happens somewhere inside [Start, End]
+					if cu.End > o.Pub {
 						var k int
 						if _, err := fmt.Sscanf(cu.Ctx, "%d:", &k); err == nil && k < len(h.Ops) {
 							exposed = opClass(h.Ops[k], sc.TimeoutMs)
@@ -200,6 +203,48 @@ func judgeGenerations(sc *SrvScenario, h *SrvHistory, res *core.Result, staleKin
 	}
 }
 
+// judgeAgainstGeneration is the second half of "every individual response is computed entirely
+// from one generation": a response whose records all carry stamp g must be the response a
+// never-reloaded handler on generation g gives to that request. The location maps differ between
+// generations, so a response built from the location of one generation and the records of another
+// is caught although its records agree on one stamp.
+func judgeAgainstGeneration(sc *SrvScenario, h *SrvHistory, res *core.Result) {
+	noKeyOf := map[int]bool{}
+	for _, o := range h.Ops {
+		if o.Op.Kind == "reload" {
+			noKeyOf[o.Gen] = o.Op.Fault == "nokey"
+		}
+	}
+	bc := backendClass(sc.Backend)
+	for _, q := range h.Queries {
+		if q.Ret == 0 || q.Resp == nil || q.Stamp < 0 || q.Stamp >= 900 {
+			continue
+		}
+		if _, published := noKeyOf[q.Stamp]; !published && q.Stamp != h.InitGen {
+			continue
+		}
+		want := refResponse(sc.Backend, q.Stamp, noKeyOf[q.Stamp], q)
+		d := ""
+		if q.Resp.Truncated && want != nil && want.Truncated {
+			continue // which records survive truncation depends on value order (see C12)
+		}
+		d = diffResponses(q.Resp, want, gen.Weighted(q.Q.Q))
+		if d == "" {
+			res.Probe("response_equals_its_generation")
+			continue
+		}
+		during := "no-catch-up"
+		for _, cu := range h.Mon.CatchUps {
+			if q.Inv < cu.End && q.Ret > cu.Start {
+				during = "catch-up"
+			}
+		}
+		res.Add("response-not-of-one-generation", fmt.Sprintf("response-not-of-one-generation|backend=%s|during=%s", bc, during),
+			fmt.Sprintf("client %d query %d (%s from %s): all records carry generation %d but the response differs from what generation %d answers: %s",
+				q.Client, q.Idx, describeQ(q), gen.Clients[q.Q.Client%len(gen.Clients)], q.Stamp, q.Stamp, d))
+	}
+}
+
 func uniq(in []string) []string {
 	var out []string
 	for i, s := range in {
@@ -245,6 +290,7 @@ func runC05(t *testing.T, sc SrvScenario, keep bool) *core.Result {
 		return res
 	}
 	judgeGenerations(&sc, h, res, "stale-read")
+	judgeAgainstGeneration(&sc, h, res)
 	res.Population = srvPopulation(&sc)
 	res.Nontrivial = res.Probes["query_overlaps_reload"] > 0 || res.Switches > 0
 	return res
